@@ -92,6 +92,77 @@ fn visited(m: &tree_sitter_graph::Match, info: &crate::tree::TreeInfo) -> Sexp {
     sexp::list(vec![crate::astx::loc(m.query_location()), sexp::nat(info.index_of(&m.full_capture())), sexp::list(caps.into_iter().map(|c| c.1).collect())])
 }
 
+/// what `try_visit_matches` must report, from independent per-stanza `QueryCursor` runs (no match limit)
+fn expected_visits(file: &tree_sitter_graph::ast::File, tree: &tree_sitter::Tree, src: &str, info: &crate::tree::TreeInfo) -> Vec<Sexp> {
+    let mut expected: Vec<Sexp> = Vec::new();
+    for st in &file.stanzas {
+        let names = crate::astx::query_captures(&st.query);
+        for m in crate::astx::matches(&st.query, tree, src, info) {
+            let caps = m.as_list().unwrap()[2].as_list().unwrap();
+            let full = caps.iter().find(|c| c.as_list().unwrap()[0].as_str() == Some("__tsg__full_match")).unwrap().as_list().unwrap()[1].as_list().unwrap()[0].clone();
+            let mut named: Vec<(String, Sexp)> = caps
+                .iter()
+                .filter(|c| c.as_list().unwrap()[0].as_str() != Some("__tsg__full_match"))
+                .map(|c| {
+                    let l = c.as_list().unwrap();
+                    let name = l[0].as_str().unwrap().to_string();
+                    let q = names.iter().find(|n| n.0 == name).unwrap().1;
+                    (name.clone(), sexp::list(vec![sexp::st(&name), crate::astx::quant(q), l[1].clone()]))
+                })
+                .collect();
+            named.sort_by(|a, b| a.0.cmp(&b.0));
+            expected.push(sexp::list(vec![crate::astx::loc(&st.range.start), full, sexp::list(named.into_iter().map(|c| c.1).collect())]));
+        }
+    }
+    expected
+}
+
+/// Wide inputs: a pattern that keeps many partial matches alive over a node with hundreds of children. Every match must
+/// still be visited, in both modes (no in-progress match may be dropped).
+fn wide_stream(rep: &mut Report, tier: &str) {
+    use crate::props::common::load;
+    let sizes: &[usize] = if tier == "thorough" { &[64, 129, 130, 200, 300] } else { &[130, 200] };
+    for &n in sizes {
+        let src = format!("x = [{}]\n", (0..n).map(|i| i.to_string()).collect::<Vec<_>>().join(", "));
+        for text in ["(list (integer) @_a (integer) @_b) { }\n", "(module) @_m { }\n(list (integer) @_a (integer) @_b) { }\n"] {
+            let file = match load(text) {
+                Ok(Ok(f)) => f,
+                _ => { rep.fail("direct", "C03 wide-input program rejected", true, json!({"tsg": text})); continue; }
+            };
+            let tree = crate::tree::parse_python(&src);
+            let info = crate::tree::TreeInfo::new(&tree);
+            let expected = expected_visits(&file, &tree, &src, &info);
+            rep.case(&format!("wide {} {}", n, text), true);
+            rep.alive();
+            for lazy in [false, true] {
+                let mut count = 0usize;
+                let res = std::panic::catch_unwind(std::panic::AssertUnwindSafe(|| {
+                    let mut v = Vec::new();
+                    let _ = file.try_visit_matches::<(), _>(&tree, &src, lazy, |m| {
+                        v.push(visited(&m, &info));
+                        Ok(())
+                    });
+                    v
+                }));
+                match res {
+                    Err(_) => rep.fail("impl-panic", "C03 try_visit_matches panics on a wide input", true, json!({"tsg": text, "list_length": n, "lazy": lazy})),
+                    Ok(mut seen) => {
+                        count = seen.len();
+                        let mut exp = expected.clone();
+                        seen.sort_by_key(|x| x.to_text());
+                        exp.sort_by_key(|x| x.to_text());
+                        if seen != exp {
+                            rep.fail("direct", &format!("C03 File::try_visit_matches(lazy={}) does not visit every match of a wide input", lazy), true,
+                                json!({"tsg": text, "source": format!("x = [0, 1, ..., {}]", n - 1), "list_length": n, "visited": count, "expected": expected.len()}));
+                        }
+                    }
+                }
+                rep.count_n("wide-input-matches-visited", count);
+            }
+        }
+    }
+}
+
 pub fn run(rep: &mut Report, tier: &str, seed: u64) {
     rep.rule = "multi-stanza files (2-7 stanzas) from a pool of 30 query shapes (fields, wildcards, alternations, anchors, #eq?/#match? predicates, ? * + captures, \
                 capture names shared between stanzas with different quantifiers/positions, _-prefixed names), every capture probed into an attribute, x generated/corpus \
@@ -110,26 +181,7 @@ pub fn run(rep: &mut Report, tier: &str, seed: u64) {
             let file = &case.loaded.file;
             let (tree, src, info) = (&case.source.tree, case.source.src.as_str(), case.info);
             // independent expectation
-            let mut expected: Vec<Sexp> = Vec::new();
-            for st in &file.stanzas {
-                let names = crate::astx::query_captures(&st.query);
-                for m in crate::astx::matches(&st.query, tree, src, info) {
-                    let caps = m.as_list().unwrap()[2].as_list().unwrap();
-                    let full = caps.iter().find(|c| c.as_list().unwrap()[0].as_str() == Some("__tsg__full_match")).unwrap().as_list().unwrap()[1].as_list().unwrap()[0].clone();
-                    let mut named: Vec<(String, Sexp)> = caps
-                        .iter()
-                        .filter(|c| c.as_list().unwrap()[0].as_str() != Some("__tsg__full_match"))
-                        .map(|c| {
-                            let l = c.as_list().unwrap();
-                            let name = l[0].as_str().unwrap().to_string();
-                            let q = names.iter().find(|n| n.0 == name).unwrap().1;
-                            (name.clone(), sexp::list(vec![sexp::st(&name), crate::astx::quant(q), l[1].clone()]))
-                        })
-                        .collect();
-                    named.sort_by(|a, b| a.0.cmp(&b.0));
-                    expected.push(sexp::list(vec![crate::astx::loc(&st.range.start), full, sexp::list(named.into_iter().map(|c| c.1).collect())]));
-                }
-            }
+            let expected: Vec<Sexp> = expected_visits(file, tree, src, info);
             for lazy in [false, true] {
                 let mut seen: Vec<Sexp> = Vec::new();
                 let res = std::panic::catch_unwind(std::panic::AssertUnwindSafe(|| {
@@ -195,4 +247,5 @@ pub fn run(rep: &mut Report, tier: &str, seed: u64) {
                 }
             }
         });
+    wide_stream(rep, tier);
 }
